@@ -243,6 +243,8 @@ void task_fn(struct aws_task *task, void *arg, enum aws_task_status status) {
 void check_has_tasks(Ctx &c, const char *where) {
     uint64_t next = 12345;
     bool has = aws_task_scheduler_has_tasks(&c.sched, &next);
+    if (aws_task_scheduler_has_tasks(&c.sched, NULL) != has) // the documented form without the optional out-parameter
+        sim::violation("c07:has-tasks", "%s: has_tasks(scheduler, NULL) returns %d, has_tasks(scheduler, &next) returns %d", where, (int)!has, (int)has);
     bool m_has = false;
     uint64_t m_next = UINT64_MAX;
     bool any_asap = false;
